@@ -1,4 +1,5 @@
 (** C10 — proofs about the snapshot life-cycle model (Valset/Snapshot.v). *)
+From Coq Require Import String.
 From Coq Require Import List ZArith Bool Lia.
 From Paloma Require Import Base.Num Valset.Snapshot.
 Import ListNotations.
@@ -9,15 +10,81 @@ Open Scope Z_scope.
 Lemma has_account_spec c l : has_account c l = true <-> exists e, In e l /\ ei_chain e = c.
 Proof.
   unfold has_account. rewrite existsb_exists. split; intros [e [H1 H2]]; exists e; split; auto.
-  - now apply Z.eqb_eq.
-  - now apply Z.eqb_eq.
+  - now apply String.eqb_eq.
+  - now apply String.eqb_eq.
+Qed.
+
+(** * MissingChains: exact comparison of reference ids *)
+
+Lemma id_in_spec c ids : id_in c ids = true <-> In c ids.
+Proof.
+  unfold id_in. rewrite existsb_exists. split.
+  - intros [x [Hx E]]. apply String.eqb_eq in E. now subst x.
+  - intros H. exists c. split; [exact H | apply String.eqb_refl].
+Qed.
+
+(** MissingChains reports exactly the active chains whose reference id is not (byte for byte) among
+    the input ids, in the order of the chain-info store. *)
+Lemma missing_chains_spec input chains c :
+  In c (missing_chains input chains) <-> In (c, true) chains /\ ~ In c input.
+Proof.
+  unfold missing_chains. rewrite in_map_iff. split.
+  - intros [[c' act] [E H]]. cbn in E. subst c'. apply filter_In in H as [Hin Hc]. cbn in Hc.
+    apply andb_true_iff in Hc as [Ha Hn]. subst act. split; [exact Hin|].
+    intros Hi. apply id_in_spec in Hi. rewrite Hi in Hn. discriminate.
+  - intros [Hin Hn]. exists (c, true). split; [reflexivity|]. apply filter_In. split; [exact Hin|]. cbn.
+    destruct (id_in c input) eqn:E; [|reflexivity]. apply id_in_spec in E. contradiction.
+Qed.
+
+Lemma missing_chains_order input chains :
+  missing_chains input chains = filter (fun c => negb (id_in c input)) (map fst (filter snd chains)).
+Proof.
+  unfold missing_chains. induction chains as [|[c act] r IH]; [reflexivity|].
+  cbn [filter map fst snd]. destruct act; cbn [andb filter map fst].
+  - destruct (negb (id_in c input)); cbn [map fst]; now rewrite IH.
+  - exact IH.
+Qed.
+
+Lemma in_active st c : In c (st_active st) <-> In (c, true) (st_chains st).
+Proof.
+  unfold st_active. rewrite in_map_iff. split.
+  - intros [[c' act] [E H]]. cbn in E. subst c'. apply filter_In in H as [H A]. cbn in A. now subst act.
+  - intros H. exists (c, true). split; [reflexivity|]. apply filter_In. now split.
+Qed.
+
+Lemma missing_nil_iff input chains :
+  missing_chains input chains = [] <-> forall c, In (c, true) chains -> In c input.
+Proof.
+  split.
+  - intros E c Hc. destruct (id_in c input) eqn:I; [now apply id_in_spec|].
+    assert (X : In c (missing_chains input chains)).
+    { apply missing_chains_spec. split; [exact Hc|]. intros Hi. apply id_in_spec in Hi. congruence. }
+    rewrite E in X. destruct X.
+  - intros H. destruct (missing_chains input chains) as [|c r] eqn:E; [reflexivity|].
+    assert (X : In c (missing_chains input chains)) by (rewrite E; now left).
+    apply missing_chains_spec in X as [Hc Hn]. elim Hn. now apply H.
 Qed.
 
 Lemma supports_all_spec st a :
   supports_all st a = true <->
   forall c, In c (st_active st) -> exists e, In e (infos_of st a) /\ ei_chain e = c.
 Proof.
-  unfold supports_all. rewrite forallb_forall. split; intros H c Hc.
+  unfold supports_all.
+  assert (M : missing_chains (map ei_chain (infos_of st a)) (st_chains st) = [] <->
+              forall c, In c (st_active st) -> exists e, In e (infos_of st a) /\ ei_chain e = c).
+  { rewrite missing_nil_iff. split; intros H c Hc.
+    - apply in_active in Hc. apply H in Hc. apply in_map_iff in Hc as [e [E He]]. eauto.
+    - apply in_active in Hc. destruct (H c Hc) as [e [He E]]. apply in_map_iff. eauto. }
+  destruct (missing_chains _ _) as [|x r].
+  - split; [intros _; now apply M | reflexivity].
+  - split; [discriminate|]. intros H. apply M in H. discriminate.
+Qed.
+
+(** [supports_all] through [has_account]: the forallb form used by executable checks *)
+Lemma supports_all_forallb st a :
+  supports_all st a = forallb (fun c => has_account c (infos_of st a)) (st_active st).
+Proof.
+  apply eq_true_iff_eq. rewrite supports_all_spec, forallb_forall. split; intros H c Hc.
   - apply has_account_spec, H, Hc.
   - apply has_account_spec, H, Hc.
 Qed.
@@ -293,30 +360,42 @@ Qed.
 
 (** * Non-vacuity: a concrete history exercising every operation *)
 
+Local Open Scope string_scope.
 Definition ex_ops : list op :=
-  [ OActive [1; 2];
+  [ OChains [("c1", true); ("c0", false); ("c2", true)]%string;
     OStaking [ {| sv_addr := 10; sv_bonded := true;  sv_jailed := false; sv_tokens := 70 |};
                {| sv_addr := 11; sv_bonded := true;  sv_jailed := true;  sv_tokens := 20 |};
                {| sv_addr := 12; sv_bonded := false; sv_jailed := false; sv_tokens := 5 |};
                {| sv_addr := 13; sv_bonded := true;  sv_jailed := false; sv_tokens := 30 |};
                {| sv_addr := 14; sv_bonded := true;  sv_jailed := false; sv_tokens := 9 |} ];
-    ORegister 10 [ {| ei_evm := true; ei_chain := 1; ei_addr := 100 |}; {| ei_evm := true; ei_chain := 2; ei_addr := 101 |} ] true;
-    ORegister 13 [ {| ei_evm := true; ei_chain := 2; ei_addr := 131 |}; {| ei_evm := true; ei_chain := 1; ei_addr := 130 |} ] true;
-    ORegister 14 [ {| ei_evm := true; ei_chain := 1; ei_addr := 140 |} ] true;
-    ORegister 11 [ {| ei_evm := true; ei_chain := 1; ei_addr := 110 |}; {| ei_evm := true; ei_chain := 2; ei_addr := 111 |} ] true;
+    ORegister 10 [ {| ei_type := "evm"; ei_chain := "c1"; ei_addr := 100; ei_traits := [] |}; {| ei_type := "evm"; ei_chain := "c2"; ei_addr := 101; ei_traits := [] |} ] true;
+    ORegister 13 [ {| ei_type := "evm"; ei_chain := "c2"; ei_addr := 131; ei_traits := [] |}; {| ei_type := "evm"; ei_chain := "c1"; ei_addr := 130; ei_traits := [] |} ] true;
+    ORegister 14 [ {| ei_type := "evm"; ei_chain := "c1"; ei_addr := 140; ei_traits := [] |} ] true;
+    ORegister 11 [ {| ei_type := "evm"; ei_chain := "c1"; ei_addr := 110; ei_traits := [] |}; {| ei_type := "evm"; ei_chain := "c2"; ei_addr := 111; ei_traits := [] |} ] true;
     OBuild true;
-    OSetOnChain 1 2;
+    OSetOnChain 1 "c2";
     OStaking [ {| sv_addr := 10; sv_bonded := true; sv_jailed := false; sv_tokens := 50 |} ];
     OBuild true;
-    OSetOnChain 1 1;
-    OSetOnChain 7 1;
+    OSetOnChain 1 "c1";
+    OSetOnChain 7 "c1";
     OBuild false ].
+
+(** a reference id that differs from an active chain's id only in letter case, by a trailing blank
+    or by a look-alike letter is a different id: the chain is reported missing *)
+Example ex_near_miss_ids_are_missing :
+  let chains := [("bnb-main", true); ("eth-main", true); ("old-net", false)] in
+  missing_chains ["eth-main"; "bnb-main"] chains = [] /\
+  missing_chains ["Eth-Main"; "bnb-main"] chains = ["eth-main"] /\
+  missing_chains ["eth-main "; "BNB-MAIN"; "eth-mai"; "eth-main1"] chains = ["bnb-main"; "eth-main"] /\
+  missing_chains [] chains = ["bnb-main"; "eth-main"] /\
+  missing_chains ["eth-main"] [("Eth-Main", true); ("eth-main", true)] = ["Eth-Main"].
+Proof. vm_compute. repeat split; reflexivity. Qed.
 
 Example ex_history :
   let st := run ex_ops in
   st_counter st = 2 /\
   option_map (fun sn => (map v_addr (sn_vals sn), map v_share (sn_vals sn), sn_total sn, sn_chains sn)) (find_snapshot st 1)
-    = Some ([10; 13], [70; 30], 100, [2; 1]) /\
+    = Some ([10; 13], [70; 30], 100, ["c2"; "c1"]) /\
   option_map (fun sn => (map v_addr (sn_vals sn), sn_total sn, sn_chains sn)) (current st) = Some ([10], 50, []) /\
   find_snapshot st 7 = None.
 Proof. vm_compute. repeat split; reflexivity. Qed.
